@@ -32,6 +32,9 @@ pub struct Detail {
     pub info: Option<String>,
     /// party written as <Pty><Nm> (new schema) instead of <Nm>
     pub nested_party: bool,
+    /// a reversal inside the batch: this detail runs against the entry's direction
+    #[serde(default)]
+    pub reversal: bool,
 }
 
 #[derive(Clone, Debug, PartialEq, Eq, Serialize, Deserialize, Hash)]
@@ -144,9 +147,10 @@ pub fn render_xml(sc: &Sc, st: &Stmt) -> String {
                     s.push_str(&format!("<AcctSvcrRef>{}</AcctSvcrRef>", esc(r)));
                 }
                 s.push_str("<EndToEndId>NOTPROVIDED</EndToEndId></Refs>\n");
-                s.push_str(&format!("<Amt Ccy=\"{}\">{}</Amt><CdtDbtInd>{}</CdtDbtInd>\n", c, d.amount, ind));
+                let d_credit = e.credit != d.reversal;
+                s.push_str(&format!("<Amt Ccy=\"{}\">{}</Amt><CdtDbtInd>{}</CdtDbtInd>\n", c, d.amount, if d_credit { "CRDT" } else { "DBIT" }));
                 if let Some(x) = d.charge {
-                    let before = if e.credit { d.amount + x } else { d.amount - x };
+                    let before = if d_credit { d.amount + x } else { d.amount - x };
                     s.push_str(&format!(
                         "<AmtDtls><InstdAmt><Amt Ccy=\"{c}\">{b}</Amt></InstdAmt><TxAmt><Amt Ccy=\"{c}\">{b}</Amt></TxAmt></AmtDtls>\n",
                         c = c,
@@ -308,7 +312,8 @@ pub fn expected(sc: &Sc, st: &Stmt) -> Result<Vec<CTxn>, &'static str> {
             if let Some(why) = folded.open {
                 return Err(why);
             }
-            let movement = if e.credit { amount } else { -amount };
+            let credit = e.credit != d.map(|d| d.reversal).unwrap_or(false);
+            let movement = if credit { amount } else { -amount };
             let counter_state = if folded.cleared { ' ' } else { '!' };
             let acct = CPost {
                 account: sc.account.clone(),
@@ -333,10 +338,10 @@ pub fn expected(sc: &Sc, st: &Stmt) -> Result<Vec<CTxn>, &'static str> {
                     metadata: vec![format!("kv:Payee={}", op)],
                 });
                 // the counter posting carries the amount before charges
-                counter_value = if e.credit { -(amount + x) } else { amount - x };
+                counter_value = if credit { -(amount + x) } else { amount - x };
             }
             let counter = CPost {
-                account: folded.account.clone().unwrap_or_else(|| if e.credit { "Income:Unknown".to_string() } else { "Expenses:Unknown".to_string() }),
+                account: folded.account.clone().unwrap_or_else(|| if credit { "Income:Unknown".to_string() } else { "Expenses:Unknown".to_string() }),
                 state: counter_state,
                 amount: Some(CVal::Amt(CAmt::new(counter_value, c))),
                 cost: None,
@@ -345,7 +350,7 @@ pub fn expected(sc: &Sc, st: &Stmt) -> Result<Vec<CTxn>, &'static str> {
                 metadata: vec![],
             };
             let mut posts = Vec::new();
-            if e.credit {
+            if credit {
                 posts.push(acct);
                 posts.extend(charges);
                 posts.push(counter);
@@ -484,7 +489,17 @@ pub fn gen_sc(rng: &mut Rng, hostile: bool, multi: bool) -> Sc {
                     remittance: if rng.chance(1, 3) { Some(["Invoice 4711", "rent January", "Invoice 12"][rng.usize(3)].to_string()) } else { None },
                     info: if rng.chance(2, 3) { Some(INFOS[rng.usize(INFOS.len())].to_string()) } else { None },
                     nested_party: rng.chance(1, 3),
+                    reversal: false,
                 });
+            }
+            // a reversal inside a batch: one detail runs against the entry, the entry shows the net
+            if details.len() >= 2 && rng.chance(1, 4) {
+                let k = rng.usize(details.len());
+                let others: Dec = details.iter().enumerate().filter(|(i, _)| *i != k).map(|(_, d)| d.amount).sum();
+                if details[k].amount < others && details[k].charge.is_none() {
+                    details[k].reversal = true;
+                    total = others - details[k].amount;
+                }
             }
             let amount = if details.is_empty() { Dec::new(1 + rng.below(900_000) as i64, 2) } else { total };
             let value = match rng.below(4) {
@@ -708,8 +723,12 @@ pub fn shrinks(sc: &Sc) -> Vec<Sc> {
         for (ei, e) in sc.statements[si].entries.iter().enumerate() {
             if e.details.len() > 1 {
                 let mut s = sc.clone();
-                let d = s.statements[si].entries[ei].details.pop().unwrap();
-                s.statements[si].entries[ei].amount -= d.amount;
+                let _ = s.statements[si].entries[ei].details.pop().unwrap();
+                let net: Dec = s.statements[si].entries[ei].details.iter().map(|d| if d.reversal { -d.amount } else { d.amount }).sum();
+                if net <= Dec::ZERO {
+                    continue;
+                }
+                s.statements[si].entries[ei].amount = net;
                 for k in si + 1..s.statements.len() {
                     s.statements[k].opening = s.statements[k - 1].closing();
                 }
@@ -943,6 +962,9 @@ impl Check for C18 {
         out.nontrivial = sc.statements.iter().any(|s| !s.entries.is_empty());
         if sc.statements.iter().flat_map(|s| s.entries.iter()).any(|e| e.details.len() > 1) {
             out.count("probe.batched-entry");
+        }
+        if sc.statements.iter().flat_map(|s| s.entries.iter()).any(|e| e.details.iter().any(|d| d.reversal)) {
+            out.count("probe.reversal-detail-in-batch");
         }
         if sc.statements.iter().flat_map(|s| s.entries.iter()).any(|e| e.details.iter().any(|d| d.charge.is_some())) {
             out.count("probe.included-charge");
